@@ -16,7 +16,7 @@ import subprocess
 import sys
 import time
 
-from mon import env
+from mon import env, core
 from mon.core import Obs, rng_for, unjson, Watchdog, CaseTimeout
 
 PROPS = ['C%02d' % i for i in range(1, 21)]
@@ -74,6 +74,20 @@ def classify(v, known):
     return None
 
 
+# ------------------------------------------------------------ process axes
+# Properties quantify over inputs, not over how the interpreter was started
+# or what the process did before. Two of every sixteen shards therefore run
+# with assertions disabled (python -O), and four only after a warm-up that
+# has pushed hostile input through the library (poisoned caches, failed
+# codec look-ups): the verdict must not depend on either.
+def optimized_shard(i):
+    return i % 8 == 5
+
+
+def warm_shard(i):
+    return i % 4 == 1 and not os.environ.get('VERIF_NO_AXES')
+
+
 # --------------------------------------------------------------------- shard
 def run_shard(prop, tier, seed, index, n, out):
     env.setup()
@@ -82,6 +96,17 @@ def run_shard(prop, tier, seed, index, n, out):
     obs = Obs(prop, tier, seed, (index, n))
     ctx = Ctx(obs, tier, seed, index, n)
     contracts.install(obs)
+    if warm_shard(index):
+        # a process that has already handled hostile input (see
+        # mon/gen/warmup.py); outside the reach/coverage monitors so that
+        # nothing the warm-up executes counts as observed by the check
+        from mon.gen import warmup
+        n = warmup.run(rng_for(seed, prop, tier, index, 'warmup'))
+        core.ENV['warmup'] = True
+        obs.count('env:shards_after_hostile_warmup')
+        obs.count('env:warmup_calls', n)
+    if sys.flags.optimize:
+        obs.count('env:shards_with_python_-O')
     reach.start()
     try:
         mod.run(ctx)
@@ -232,9 +257,12 @@ def drive(prop, tier, seed, nshards):
         out = os.path.join(outdir, '%s-%s-%s-%d.json' % (prop, tier, seed, i))
         if os.path.exists(out):
             os.unlink(out)
-        cmd = [sys.executable, '-X', 'faulthandler', '-m', 'mon.driver', prop,
-               '--tier', tier, '--shard', '%d/%d' % (i, nshards),
-               '--out', out]
+        cmd = [sys.executable, '-X', 'faulthandler'] + (
+            ['-O'] if optimized_shard(i) and not os.environ.get(
+                'VERIF_NO_AXES') else []) + [
+            '-m', 'mon.driver', prop,
+            '--tier', tier, '--shard', '%d/%d' % (i, nshards),
+            '--out', out]
         log = open(out + '.log', 'w')
         procs.append((subprocess.Popen(cmd, cwd=env.VERIF_ROOT, env=penv,
                                        stdout=log, stderr=subprocess.STDOUT),
@@ -365,8 +393,20 @@ def do_replay(path):
     env.setup()
     with open(path) as fh:
         v = json.load(fh)
+    venv = v.get('env') or {}
+    if bool(venv.get('optimize')) != bool(sys.flags.optimize):
+        # reproduce the interpreter flags of the shard that saw it
+        cmd = [sys.executable] + (['-O'] if venv.get('optimize') else []) + [
+            '-m', 'mon.driver', v.get('replay_property') or v['property'],
+            '--replay', path]
+        return subprocess.call(cmd, cwd=env.VERIF_ROOT)
     prop = v.get('replay_property') or v['property']
     mod = load_prop(prop)
+    if venv.get('warmup'):
+        from mon.gen import warmup
+        warmup.run(rng_for(v.get('seed', 0), prop, v.get('tier', 'quick'),
+                           1, 'warmup'))
+        core.ENV['warmup'] = True
     obs = Obs(prop, v.get('tier', 'quick'), v.get('seed', 0))
     from mon.monitor import contracts
     contracts.install(obs)
